@@ -147,6 +147,10 @@ func (h *NextHop) get(keys ...string) string {
 
 func hopErr(cls, what string) *smtp.SMTPError {
 	switch cls {
+	case "Tn": // replies without an enhanced status code (servers without ENHANCEDSTATUSCODES)
+		return &smtp.SMTPError{Code: 450, EnhancedCode: smtp.NoEnhancedCode, Message: "next hop: try again later, " + what}
+	case "Pn":
+		return &smtp.SMTPError{Code: 550, EnhancedCode: smtp.NoEnhancedCode, Message: "next hop: no such user here, " + what}
 	case "T":
 		return &smtp.SMTPError{Code: 451, EnhancedCode: smtp.EnhancedCode{4, 3, 0}, Message: "next hop: temporary failure at " + what}
 	case "P":
